@@ -61,10 +61,10 @@ CLAIMED["C02"] = dict(
    engine="PqSampler")
 CLAIMED["C09"] = dict(
    category="model_checking", design_ref="§3 C09",
-   text="Every behaviour TLC exports from the exact reference semantics (PqOptics: passive and Kerr-type gates on number states; PqGaussian: lattice Gaussian gates) is executed under every connector the simulator accepts (NumPy, TensorFlow, JAX on PureFock; NumPy, JAX on Gaussian and Passive), eagerly and compiled with tf.function / jax.jit with the gate parameters as traced arguments, and each result (state vector with phases, Fock probabilities, mean and covariance, detection probabilities) is compared with the exact state of the specification at 1e-8; connectors that all equal the exact state equal each other. Active gates in Fock space (no exact lattice representation; they go through each connector's polar/logm/Takagi shims) are compared across connectors against the NumPy result in the regime where truncation is below 1e-8.",
-   note="Programs that cannot be traced by tf.function/jax.jit (they raise at trace time, e.g. MachZehnder under tf.function) are counted, not judged; fermionic simulators under JAX are not covered yet.",
+   text="Every behaviour TLC exports from the exact reference semantics (PqOptics: passive and Kerr-type gates on number states; PqGaussian: lattice Gaussian gates) is executed under every connector the simulator accepts (NumPy, TensorFlow, JAX on PureFock; NumPy, JAX on Gaussian, Passive and both fermionic simulators via PqFermi), eagerly and compiled with tf.function / jax.jit with the gate parameters as traced arguments, and each result (state vector with phases, Fock probabilities, mean and covariance, detection probabilities) is compared with the exact state of the specification at 1e-8; connectors that all equal the exact state equal each other. Active gates in Fock space (no exact lattice representation; they go through each connector's polar/logm/Takagi shims) are compared across connectors against the NumPy result in the regime where truncation is below 1e-8.",
+   note="Programs that cannot be traced by tf.function/jax.jit (they raise at trace time, e.g. MachZehnder under tf.function) are counted, not judged;",
    technique="behaviours of the exact TLA+ reference semantics replayed under every connector (eager and compiled) and compared with the exact state",
-   engine="PqOptics, PqGaussian")
+   engine="PqOptics, PqGaussian, PqFermi")
 CLAIMED["C10"] = dict(
    category="model_checking", design_ref="§3 C10",
    text="PqOpticsGrad.tla is the exact tangent semantics of PqOptics: the derivative of the state with respect to one parameter (Beamsplitter theta / phi, Phaseshifter phi) of one gate of the program, by the Leibniz rule on the substitution a_c^dagger -> L_c with the derivative of the documented one-particle matrix (a lattice matrix with the same denominator); Kerr-type and parameter-free gates are differentiated through. TLC checks Re<psi|dpsi> = 0 on every behaviour (d=2,3, n<=3, depth 2-3) and exports state and tangent. The exact Jacobian of all Fock probabilities, 2 Re(conj(a_v) da_v), is compared at 1e-7 with tf.GradientTape (eager and inside tf.function), with jax.jacfwd / jax.jacrev (eager and under jax.jit) and, as the property's own oracle, with central finite differences of the NumPy simulation. PqGaussianGrad.tla: exact tangent of (mean, covariance, mean photon numbers) of lattice Gaussian programs with respect to one parameter (Squeezing r/phi, Squeezing2 r/phi, Displacement r/phi, QuadraticPhase s, ControlledX/Z s, Beamsplitter, Phaseshifter), TLC-checked (derivative of the commutation relations vanishes, tangent Hermitian), against jax.jacfwd / jacrev through GaussianSimulator (1e-8) and finite differences of NumPy. The JAX permanent: value and holomorphic gradient against the definition (d perm / dA_ij = rows_i cols_j perm of the minor) for Gaussian-integer matrices with multiplicities.",
